@@ -37,22 +37,22 @@ type hbScn struct {
 }
 
 type hbObs struct {
-	SID      string `json:"sid"`
-	Ev       string `json:"ev"`
-	Scn      hbScn  `json:"scn"`
-	Status   int    `json:"status"`
-	CT       string `json:"ct"`
-	Enc      string `json:"enc"`     // declared Content-Encoding
-	CLen     int    `json:"clen"`    // declared Content-Length, -1 none
-	BodyLen  int    `json:"bodylen"` // bytes on the wire
-	DeclOK   bool   `json:"declok"`  // the bytes are in the declared encoding
-	DataOK   bool   `json:"dataok"`  // (decoded) body / backend data equals what was sent
-	N        int    `json:"n"`       // backend invocations
-	NameOK   bool   `json:"nameok"`  // the path variable arrived intact
-	CTOK     bool   `json:"ctok"`    // upload: the HttpBody's content_type is the request's Content-Type
-	NMsgs    int    `json:"nmsgs"`   // upload: messages the backend received
-	Code     int    `json:"code"`    // RPC code reported to the client (from the JSON error body), 0 = OK
-	Panic    bool   `json:"panic"`
+	SID      string   `json:"sid"`
+	Ev       string   `json:"ev"`
+	Scn      hbScn    `json:"scn"`
+	Status   int      `json:"status"`
+	CT       string   `json:"ct"`
+	Enc      string   `json:"enc"`     // declared Content-Encoding
+	CLen     int      `json:"clen"`    // declared Content-Length, -1 none
+	BodyLen  int      `json:"bodylen"` // bytes on the wire
+	DeclOK   bool     `json:"declok"`  // the bytes are in the declared encoding
+	DataOK   bool     `json:"dataok"`  // (decoded) body / backend data equals what was sent
+	N        int      `json:"n"`       // backend invocations
+	NameOK   bool     `json:"nameok"`  // the path variable arrived intact
+	CTOK     bool     `json:"ctok"`    // upload: the HttpBody's content_type is the request's Content-Type
+	NMsgs    int      `json:"nmsgs"`   // upload: messages the backend received
+	Code     int      `json:"code"`    // RPC code reported to the client (from the JSON error body), 0 = OK
+	Panic    bool     `json:"panic"`
 	Problems []string `json:"problems"`
 }
 
